@@ -25,8 +25,8 @@ def cmp_ok(p, left_pred, right_pred, op):
     return False
 
 
-def run(ctx, prog):
-    A = Auditor(ctx, prog)
+def run(ctx, prog, only=None):
+    A = Auditor(ctx, prog, only=only)
     S = prog.structs
     PVO = S['JwtPresentationValidationOptions']
     PC = S['PresentationJwtClaims']
